@@ -129,9 +129,13 @@ def getProj (r : Recs) (ks : List String) : Except Err Recs :=
 
 /-! ### derived columns -/
 
-/-- `res[k] = [f(**record) for record in res]` -/
+/-- `f(key = k, **record)` for every record (the record's own fields win over the default `key`) -/
+def applyFnK (r : Recs) (key : String) (f : Fn) : Except Err (List Cell) :=
+  mapE (fun row => f.eval (keyDflt key (get? r.cols row))) r.rows
+
+/-- `res[k] = [f(key = k, **record) for record in res]` -/
 def setFn (r : Recs) (kf : String × Fn) : Except Err Recs :=
-  match r.applyFn kf.2 with
+  match r.applyFnK kf.1 kf.2 with
   | .error e => .error e
   | .ok vs => r.setitem kf.1 (.many vs)
 
